@@ -297,6 +297,7 @@ def run(ctx):
         ctx.seen({'stream': 'filter', 'rows': rr}, any(a == b for a, b in zip(rr, rr[1:])) and any(a != b for a, b in zip(rr, rr[1:])))
         ctx.count('filter.width', str(width))
         _cmp(ctx, 'filter', case, impl, model.get('out', model))
+    run_large(ctx)
     # ---- split
     ss = gen_split(ctx, ctx.n(500, 5000))
     if ctx.tier == 'thorough' or ctx.escalated:
@@ -311,6 +312,51 @@ def run(ctx):
         ctx.seen({'stream': 'split', 'mask': mask}, any(a != b for a, b in zip(mask, mask[1:])))
         ctx.count('split.mode', mode)
         _cmp(ctx, 'split', case, impl, model)
+
+
+def run_large(ctx):
+    """Spec-only stream (independent reference, no model: the matrices are too large / not rational): very long trajectories with
+    exact repeats placed around multiples of 65536 rows, and matrices with a column held at +-inf whose rows all differ."""
+    import numpy as np
+    from femto.helpers import unique_filter
+    from femto.laserpath import LaserPath
+    rng = ctx.rng
+    for k in range(ctx.n(2, 6)):
+        n = rng.choice([65536 + 40, 131072 + 40])
+        x = np.arange(n, dtype=np.float32) * np.float32(0.25)
+        rep = sorted(set([65535, 65536, 65537, rng.randrange(1, n - 1)] + ([131072, 131073] if n > 131072 else [])))
+        for i in rep:
+            x[i] = x[i - 1]
+        y = np.zeros(n, dtype=np.float32)
+        keep = np.ones(n, dtype=bool)
+        keep[1:] = x[1:] != x[:-1]
+        with core.quiet():
+            got = unique_filter([x, y])
+            lp = LaserPath()
+            lp.add_path(x, y, y, np.full(n, 5.0, dtype=np.float32), np.ones(n, dtype=np.float32))
+            px = np.asarray(lp.points[0])
+        ctx.count('large.rows', str(n))
+        case = {'rows': n, 'repeats_at': rep}
+        ctx.seen({'stream': 'large', **case}, True)
+        if np.asarray(got).shape[-1] != int(keep.sum()) or not np.array_equal(np.asarray(got)[0], x[keep]):
+            ctx.fail('spec', 'large', case, f'unique_filter keeps {np.asarray(got).shape[-1]} of {n} rows, {int(keep.sum())} differ from their predecessor '
+                                              f'(repeats at {rep})', 'large:filter')
+        elif px.shape[0] != int(keep.sum()) or not np.array_equal(px, x[keep]):
+            ctx.fail('spec', 'large', case, f'points keeps {px.shape[0]} of {n} rows, {int(keep.sum())} differ from their predecessor', 'large:points')
+    for k in range(ctx.n(20, 200)):
+        n = rng.randint(2, 12)
+        cols = [[float(i) * rng.choice([0.5, 1.0]) for i in range(n)], [rng.choice([float('inf'), float('-inf')])] * n,
+                [float(rng.randint(0, 1)) for _ in range(n)]]
+        rng.shuffle(cols)
+        with core.quiet():
+            got = np.asarray(unique_filter([np.array(c_) for c_ in cols]))
+        case = {'cols': [[repr(v) for v in c_] for c_ in cols]}
+        ctx.seen({'stream': 'nonfinite', **case}, True)
+        ctx.count('large.nonfinite_column', 'yes')
+        # every row differs from its predecessor in a finite column: all of them must be kept
+        if got.ndim != 2 or got.shape[-1] != n:
+            ctx.fail('spec', 'nonfinite', case, f'unique_filter keeps {got.shape[-1] if got.ndim == 2 else got.shape} of {n} rows that all differ from '
+                                                  f'their predecessor (one column is held at infinity)', 'nonfinite:filter')
 
 
 def replay(ctx, payload):
